@@ -174,7 +174,9 @@ func runCfCase(c CfCase, tag string) (string, map[string]int) {
 		}
 		cfStartable = startable
 		run.HealthChecks.Active.Enabled = false
-		if run.Logging.Level == "" || run.Logging.Level == "debug" || run.Logging.Level == "info" {
+		// quiet logs for processes that will serve; a configuration that must be refused at start-up keeps its (possibly
+		// omitted) level: the refusal has to be SAID, whatever the level
+		if run.Logging.Level == "debug" || run.Logging.Level == "info" || (run.Logging.Level == "" && startable && run.Validate() == nil && chainOK) {
 			run.Logging.Level = "error"
 		}
 		// the binary runs a copy with free ports, the harness backend and no TLS / probes: what it must do is decided by
@@ -219,9 +221,11 @@ func runCfCase(c CfCase, tag string) (string, map[string]int) {
 			hp.stop()
 		case strings.Contains(err.Error(), "exited at start-up"):
 			proc = 0
-			// a clear error, never a panic
+			// a clear error, never a panic, never silence
 			if strings.Contains(err.Error(), "panic:") || strings.Contains(err.Error(), "goroutine ") {
 				proc = 3
+			} else if strings.TrimSpace(strings.TrimPrefix(err.Error(), "helios exited at start-up:")) == "" {
+				proc = 4
 			}
 		default:
 			proc = 2
@@ -435,9 +439,18 @@ func TestConfig(t *testing.T) {
 	}
 	// sections that are switched off may carry any port, also one another listener uses
 	for _, f := range []func(c *config.Config){
-		func(c *config.Config) { c.Metrics = config.MetricsConfig{Enabled: false, Port: 9090, Path: "/metrics"}; c.AdminAPI = config.AdminAPIConfig{Enabled: true, Port: 9090} },
-		func(c *config.Config) { c.Metrics = config.MetricsConfig{Enabled: true, Port: 9091, Path: "/metrics"}; c.AdminAPI = config.AdminAPIConfig{Enabled: false, Port: 9091} },
-		func(c *config.Config) { c.Metrics = config.MetricsConfig{Enabled: false, Port: 8080}; c.AdminAPI = config.AdminAPIConfig{Enabled: false, Port: 8080} },
+		func(c *config.Config) {
+			c.Metrics = config.MetricsConfig{Enabled: false, Port: 9090, Path: "/metrics"}
+			c.AdminAPI = config.AdminAPIConfig{Enabled: true, Port: 9090}
+		},
+		func(c *config.Config) {
+			c.Metrics = config.MetricsConfig{Enabled: true, Port: 9091, Path: "/metrics"}
+			c.AdminAPI = config.AdminAPIConfig{Enabled: false, Port: 9091}
+		},
+		func(c *config.Config) {
+			c.Metrics = config.MetricsConfig{Enabled: false, Port: 8080}
+			c.AdminAPI = config.AdminAPIConfig{Enabled: false, Port: 8080}
+		},
 	} {
 		cfg := baseConfig()
 		f(&cfg)
